@@ -52,9 +52,9 @@ const (
 
 type c05KUShared struct {
 	cfg     c05KUConfig
-	secrets [2][]byte             // traffic secret of endpoint i's SEND direction
+	secrets [2][]byte                 // traffic secret of endpoint i's SEND direction
 	gen     [2][c05KUMaxGen]ref5.Keys // keys of key generation g used by sender i
-	cid     [2]protocol.ConnectionID // destination connection ID used by sender i
+	cid     [2]protocol.ConnectionID  // destination connection ID used by sender i
 }
 
 type c05KUPkt struct {
@@ -84,14 +84,14 @@ type c05KUEnd struct {
 }
 
 type c05KUInst struct {
-	sh       *c05KUShared
-	rtt      [2]*utils.RTTStats
-	end      [2]*c05KUEnd
-	flight   [2][]*c05KUPkt // by sender
-	repl     [2][2]*c05KUPkt // by sender: first and latest delivered packet
-	now      monotime.Time
-	dead     bool
-	outcome  string
+	sh      *c05KUShared
+	rtt     [2]*utils.RTTStats
+	end     [2]*c05KUEnd
+	flight  [2][]*c05KUPkt  // by sender
+	repl    [2][2]*c05KUPkt // by sender: first and latest delivered packet
+	now     monotime.Time
+	dead    bool
+	outcome string
 }
 
 func c05KUNewShared(cfg c05KUConfig) *c05KUShared {
@@ -527,9 +527,9 @@ func c05KeyUpdatePart(name string, cfg c05KUConfig) explore.Part {
 		FirstKeyUpdateInterval = cfg.first
 		SetKeyUpdateInterval(cfg.interval)
 		sh := c05KUNewShared(cfg)
-		depth := 7
+		depth := 8
 		if e.Thorough() {
-			depth = 9
+			depth = 10
 		}
 		return explore.BFSSpec{
 			New:              func() explore.Instance { return c05KUNew(sh) },
